@@ -219,6 +219,24 @@ func init() {
 		if got := read(docB); got != "err" {
 			return "FAIL with the keyring emptied in place: " + got
 		}
+		// the same with a large keyring (100 entries), all replaced in place
+		kr = kr[:0]
+		for i := 0; i < 100; i++ {
+			kr = append(kr, krB[0])
+		}
+		if got := read(docB); got != "ok "+idB {
+			return "FAIL a 100-entry keyring holding the signer: " + got
+		}
+		keyA := readKeyring(a[2])[0]
+		for i := range kr {
+			kr[i] = keyA
+		}
+		if got := read(docB); got != "err" {
+			return "FAIL after all 100 entries of the keyring were replaced in place, a document signed by the removed key is still accepted: " + got
+		}
+		if got := read(docA); got != "ok "+idA {
+			return "FAIL after all 100 entries of the keyring were replaced in place, a document signed by the new key: " + got
+		}
 		return "ok"
 	}
 }
